@@ -109,6 +109,18 @@ def gen_cases(ctx, n):
             start = max(0, d - r.rng(0, 3 * NS))
             rd = clock_script(r, start, d, r.rng(0, 6), r.choice([1, 2, NS]))
         cases.append("%s %d %d %d %s" % (op, d // NS, d % NS, F, fmt_clock(rd)))
+    # malformed absolute deadlines (nanosecond field just outside the valid range, both ends): the property fixes no
+    # error code for them; what must hold is that the call still terminates, succeeds when an attempt finds the
+    # resource available, returns nothing but 0 or the timeout code - and agrees with the model, whose loop is the
+    # transliteration of the code's lexicographic comparison
+    for i in range(max(8, n // 10)):
+        op = r.choice(["tlock", "tjoin"])
+        sec = r.choice([0, 3, 1700000000])
+        nsec = r.choice([-1, NS, NS + 1, -NS, 2 * NS - 1, -999999999])
+        F = r.choice([-1, 0, 2, 3])
+        base = sec * NS
+        rd = [max(0, base - 2 * NS + k * (NS // 2)) for k in range(r.rng(2, 6))] + [base + 3 * NS, base + 3 * NS + 5]
+        cases.append("%s %d %d %d %s" % (op, sec, nsec, F, fmt_clock(rd)))
     return cases
 
 
@@ -155,8 +167,9 @@ def oracle(case, out):
             cl = [int(w[5 + 2 * i]) * NS + int(w[6 + 2 * i]) for i in range(K)]
             to = 110 if w[0] == "tlock" else 16
             rdg = lambda j: cl[min(j, K - 1)]
+            malformed = not (0 <= int(w[2]) < NS)
             if ret == to:
-                if reads < 1 or rdg(reads - 1) < d:
+                if not malformed and (reads < 1 or rdg(reads - 1) < d):
                     return "timeout reported before the deadline had passed"
                 if F >= 0 and F < reads and all(rdg(j) <= d for j in range(max(0, F - 1))) and F == 0:
                     return "timeout although the resource was available at the first attempt"
